@@ -91,6 +91,39 @@ def misuse(r):
     return workloads.program("misuse", lines)
 
 
+SIZES = [0, 1, 2, 3, 4, 5, 7, 8, 9, 15, 16, 17, 31, 33, 63, 65, 127, 129, 255, 256, 257, 300, 509, 510, 511, 512, 513, 600, 1020, 1021,
+         1022, 1023, 1025, 1100]
+
+
+def growth(r):
+    """Lists that outgrow their block while other references to them exist. When a list moves is a function of the
+    element count alone, so which aliases still compare equal afterwards must not depend on the size of a value."""
+    lines = ["class B { init(v) { self.v = v; } }"]
+    for i in range(r.randint(1, 3)):
+        start = r.choice([0, 0, 1, 3, 4, 6, 8, 100, 256])
+        kind = r.choice(["literal", "times", "filter", "map", "collect"])
+        if kind == "literal" or start == 0:
+            first = "[%s]" % ", ".join(str(k) for k in range(min(start, 8)))
+        elif kind == "times":
+            first = "%d.times().list()" % start
+        elif kind == "filter":
+            first = "%d.times().filter(|x| true).list()" % start
+        elif kind == "map":
+            first = "%d.times().map(|x| x + 1).list()" % start
+        else:
+            first = "%d.times().into(List.collect)" % start
+        lines.append("let g%d = %s; let holder%d = [g%d]; let m%d = {}; m%d[g%d] = 1; let b%d = B(g%d);" % (i, first, i, i, i, i, i, i, i))
+        lines.append("fn fill%d(l, n) { for k in n.times() { l.push(k); } print(l == g%d, l == holder%d[0], l == b%d.v, m%d.has(l), "
+                     "holder%d.has(l), (l, 1).index(g%d), l.len()); }" % ((i,) * 7))
+        lines.append("fn ins%d(l, n) { for k in n.times() { l.insert(0, k); } print(l == g%d, b%d.v == holder%d[0], l.len(), l[0]); }" % ((i,) * 4))
+        for _ in range(r.randint(1, 4)):
+            target = r.choice(["g%d" % i, "holder%d[0]" % i, "b%d.v" % i])
+            lines.append("%s%d(%s, %d);" % (r.choice(["fill", "fill", "ins"]), i, target, r.choice(SIZES)))
+            if r.random() < 0.4:
+                lines.append("print(g%d == holder%d[0], g%d == b%d.v, m%d.has(g%d), g%d.len(), holder%d[0].len());" % ((i,) * 8))
+    return workloads.program("growth", lines)
+
+
 class C14(Check):
     prop = "C14"
     level = "exploration"
@@ -99,7 +132,8 @@ class C14(Check):
     rule = ("a case is (program, collection schedule, address policy) executed by the tagged-enum worker and by the NaN-boxed worker; "
             "programs are the fixture corpus, generated workloads (pipelines, churn, fibers, classes, strings, networks) and generated "
             "numeric programs (arithmetic over -0, infinities, NaNs, subnormals, 2^53 neighbours through ==, ordering, map keys, "
-            "has/index, formatting, parsing, rounding, truthiness); distinct = distinct (program, fired schedule); non-trivial = the "
+            "has/index, formatting, parsing, rounding, truthiness), built-ins applied to operands of every kind, and lists growing past "
+            "their block through aliases around power-of-two and page-size element counts; distinct = distinct (program, fired schedule); non-trivial = the "
             "program produced output and executed at least 20 instructions in both builds")
     assumptions = [
         "programs whose reference output changes under a pure address perturbation are compared on exit class only (Value is 16 bytes in one build and 8 in the other, so addresses differ)",
@@ -114,6 +148,7 @@ class C14(Check):
         plan += [("numbers", i) for i in range(1500 if tier == "quick" else 100000)]
         plan += [("generated", i) for i in range(1500 if tier == "quick" else 60000)]
         plan += [("misuse", i) for i in range(1000 if tier == "quick" else 60000)]
+        plan += [("growth", i) for i in range(600 if tier == "quick" else 30000)]
         return plan
 
     def runs(self, tier):
@@ -134,6 +169,8 @@ class C14(Check):
             program = numbers(rng)
         elif entry[0] == "misuse":
             program = misuse(rng)
+        elif entry[0] == "growth":
+            program = growth(rng)
         else:
             program = workloads.generate(rng)
         gc = schedules.never() if rng.random() < 0.3 else schedules.random_schedule(rng, self.startup, self.startup + 400, program.get("heavy", False))
